@@ -207,6 +207,14 @@ func (g *GruleEngine) ExecuteWithContext(ctx context.Context, dataCtx ast.IDataC
 		// knowledge.RuleContextReset()
 		log.Tracef("Selected rules %d.", len(runnable))
 
+		// a cancellation inside the last condition of the cycle is reported as such: not as the cycle limit that
+		// happens to be reached too, and not after the listeners were told of an execution that does not take place
+		if ctx.Err() != nil {
+			log.Error("Context canceled")
+
+			return ctx.Err()
+		}
+
 		// If there are rules to execute, sort them by their Salience
 		if len(runnable) > 0 {
 			// add the cycle counter
